@@ -204,8 +204,8 @@ def miri_arm(prop, seed, tier, notes):
     for w in range(workers):
         e = dict(env)
         e["MIRIFLAGS"] = "-Zmiri-ignore-leaks -Zmiri-symbolic-alignment-check -Zmiri-seed=%d" % ((seed + 100 + w) % (2 ** 31))
-        jobs.append(dict(cmd=["cargo", "+nightly", "miri", "run", "--offline", "-q", "-p", "recsim", "--", "tour", "--seed", str(seed), "--faults", "on" if w % 2 else "off",
-                              "--init-skipped", "--max-defs", str(t["miri_tour_defs"]), "--part", str(w // 2), "--parts", str(max(1, workers // 2)), "--trace-cases"],
+        jobs.append(dict(cmd=["cargo", "+nightly", "miri", "run", "--offline", "-q", "-p", "recsim", "--", "tour", "--seed", str(seed), "--faults", "on" if w % 2 else "off", "--focus", prop,
+                              "--init-skipped", "--max-defs", str(max(1, t["miri_tour_defs"] // 4) if prop in ("C06", "C07") else t["miri_tour_defs"]), "--part", str(w // 2), "--parts", str(max(1, workers // 2)), "--trace-cases"],
                          cwd=SIM, env=e, tag=("miri", "on" if w % 2 else "off"), miri_seed=(seed + 100 + w) % (2 ** 31)))
     results = fan_out(jobs, timeout=6 * 3600)
     merged = Merged()
